@@ -182,6 +182,9 @@ func walkLexFunc(r *lexRoles, fd *ast.FuncDecl, init *lexState, bind map[types.O
 		}
 		res = append(res, pr)
 	}
+	if lexUnrollOverride > 0 {
+		w.LoopUnroll = lexUnrollOverride
+	}
 	w.Run(fd.Body, init)
 	return res, w.Overflow, w.Unsupported, derefViol
 }
@@ -669,11 +672,19 @@ func ruleLexDispatch(c *Ctx) []Obligation {
 		}
 	}
 	// rune classes
-	wantSets := map[string]runeSet{
-		"IsDigit":      {[][2]rune{{'0', '9'}}},
-		"IsOctalDigit": {[][2]rune{{'0', '7'}}},
-		"IsHexDigit":   {[][2]rune{{'0', '9'}, {'A', 'F'}, {'a', 'f'}}},
-		"IsLetter":     {[][2]rune{{'A', 'Z'}, {'a', 'z'}, {'_', '_'}}},
+	gram, gerr := parseEBNF(readGrammar(c))
+	if gerr != nil {
+		return append(obs, Obligation{Key: "grammar.ebnf", Status: Undecided, Detail: gerr.Error()})
+	}
+	wantSets := map[string]runeSet{}
+	for pred, prod := range map[string]string{"IsDigit": "DIGIT", "IsOctalDigit": "OCTAL", "IsHexDigit": "HEX", "IsLetter": "LETTER"} {
+		if p, ok := gram.prods[prod]; ok {
+			if set, ok := gram.class(p, 0); ok {
+				wantSets[pred] = set
+				continue
+			}
+		}
+		obs = append(obs, Obligation{Key: "rune class util." + pred, Status: Undecided, Detail: "grammar.ebnf does not define " + prod + " as a character class"})
 	}
 	up := c.Pkg("homescript/lexer/util")
 	for name, want := range wantSets {
@@ -692,7 +703,7 @@ func ruleLexDispatch(c *Ctx) []Obligation {
 		case got.equal(want):
 			o.Status, o.Detail = Discharged, "denotes "+got.String()
 		default:
-			o.Status, o.Detail = Violated, fmt.Sprintf("denotes %s, the lexical grammar defines %s", got.norm(), want.norm())
+			o.Status, o.Detail = Violated, fmt.Sprintf("denotes %s, grammar.ebnf defines %s", got.norm(), want.norm())
 		}
 		obs = append(obs, o)
 	}
@@ -1163,4 +1174,521 @@ func positiveFacts(fs []charFact) string {
 		}
 	}
 	return strings.Join(b, ",")
+}
+
+// ---------------------------------------------------------------------
+// R-lex-span-loop / R-lex-number-kind / R-lex-escapes
+
+func init() {
+	register(&Rule{ID: "R-lex-span-loop", Floor: 3, Run: ruleLexSpanLoop,
+		Doc: "for the loop-based token constructors (names, numbers, strings): on every path (loops explored for 0, 1 and 2 iterations) the returned token's span starts at the location before the first advance, ends at the location of the last rune consumed (inclusive), and names the lexer's file — every rune the constructor consumes belongs to the lexeme its span covers; a number token has kind Float exactly on the paths that consumed a '.' or the 'f' suffix, Int otherwise"})
+	register(&Rule{ID: "R-lex-escapes", Floor: 4, Run: ruleLexEscapes,
+		Doc: "the numeric escape forms decode the number of digits and the radix the lexical grammar (grammar.ebnf escape_seq) prescribes: 3 octal digits, \\x 2 hex, \\u 4 hex, \\U 8 hex; the digit class tested matches the radix"})
+}
+
+func ruleLexSpanLoop(c *Ctx) []Obligation {
+	r := discoverLexRoles(c)
+	_, _, cases, def := nextTokenCases(c, r)
+	info := r.info
+	type entry struct {
+		fn    *types.Func
+		call  *ast.CallExpr
+		first []charFact
+		label string
+	}
+	var entries []entry
+	for _, nc := range cases {
+		if nc.ctor == nil {
+			continue
+		}
+		var rs runeSet
+		for _, ch := range nc.runes {
+			rs.ranges = append(rs.ranges, [2]rune{ch, ch})
+		}
+		set := rs.norm()
+		f := charFact{off: 0, kind: fIn, set: &set, name: set.String()}
+		if len(nc.runes) == 1 {
+			f = charFact{off: 0, kind: fEq, r: nc.runes[0]}
+		}
+		entries = append(entries, entry{nc.ctor, nc.call, []charFact{{off: 0, kind: fNonNil}, f}, set.String()})
+	}
+	// default clause: `if pred(*cur) { return self.makeX() }`
+	if def != nil {
+		for _, s := range def.Body {
+			ifs, ok := s.(*ast.IfStmt)
+			if !ok {
+				continue
+			}
+			call, ok := ast.Unparen(ifs.Cond).(*ast.CallExpr)
+			if !ok {
+				continue
+			}
+			pfn := CalleeOf(info, call)
+			rs, ok := r.preds[pfn]
+			if !ok || len(ifs.Body.List) == 0 {
+				continue
+			}
+			ret, ok := ifs.Body.List[len(ifs.Body.List)-1].(*ast.ReturnStmt)
+			if !ok || len(ret.Results) == 0 {
+				continue
+			}
+			rc, ok := ast.Unparen(ret.Results[0]).(*ast.CallExpr)
+			if !ok {
+				continue
+			}
+			if fn := CalleeOf(info, rc); fn != nil {
+				set := rs
+				entries = append(entries, entry{fn, rc, []charFact{{off: 0, kind: fNonNil}, {off: 0, kind: fIn, set: &set, name: pfn.Name()}}, pfn.Name()})
+			}
+		}
+	}
+	var obs []Obligation
+	for _, e := range entries {
+		fd := FuncDecl(r.pkg, "Lexer", e.fn.Name())
+		if fd == nil {
+			continue
+		}
+		hasLoop := false
+		ast.Inspect(fd.Body, func(n ast.Node) bool {
+			if _, ok := n.(*ast.ForStmt); ok {
+				hasLoop = true
+			}
+			return true
+		})
+		if !hasLoop {
+			continue
+		}
+		init := &lexState{env: map[types.Object]lv{}}
+		for _, f := range e.first {
+			init.add(f)
+		}
+		res, overflow, unsup := walkLexFuncN(r, fd, init, nil, 2)
+		key := fmt.Sprintf("lexer.%s|first in %s", e.fn.Name(), e.label)
+		if overflow || len(unsup) > 0 {
+			obs = append(obs, Obligation{Key: key, Pos: c.Pos(fd.Pos()), Status: Undecided, Detail: "path enumeration overflow or unsupported control flow"})
+			continue
+		}
+		spanFails := map[string]bool{}
+		kindFails := map[string]bool{}
+		ntok := 0
+		isNumber := false
+		for _, pr := range res {
+			if len(pr.ret) == 0 || pr.ret[0].k != lvToken {
+				continue
+			}
+			tok := pr.ret[0]
+			ntok++
+			st := pr.st
+			span := tok.parts[2]
+			// consumed runes: advances; a sub-scanner call makes the count unknown
+			unknown := false
+			for _, ev := range st.events {
+				if ev.kind == "call" {
+					unknown = true
+				}
+			}
+			if span.k != lvSpan {
+				spanFails["span is not built from locations: "+span.String()] = true
+			} else {
+				if s := span.parts[0]; s.k != lvLoc || s.off != 0 {
+					spanFails[fmt.Sprintf("Span.Start is %v, want the location before the first advance", s)] = true
+				}
+				if f := span.parts[2]; f.k != lvFile {
+					spanFails[fmt.Sprintf("Span.Filename is %v, want the lexer's filename", f)] = true
+				}
+				if !unknown {
+					if en := span.parts[1]; en.k != lvLoc || en.off != st.off-1 {
+						spanFails[fmt.Sprintf("on the path [%s] the constructor consumes %d rune(s) but Span.End is %v, want the location of the last consumed rune (loc@%d)", consumedSummary(st), st.off, en, st.off-1)] = true
+					}
+				}
+			}
+			// number kinds
+			if k := tok.parts[0]; k.k == lvConst && k.cobj != nil && (k.cobj.Name() == "Int" || k.cobj.Name() == "Float") {
+				isNumber = true
+				floaty := false
+				for _, ev := range st.events {
+					if ev.kind != "advance" {
+						continue
+					}
+					if _, _, eq, has := st.known(ev.off); has && (eq == '.' || eq == 'f') {
+						floaty = true
+					}
+				}
+				if floaty != (k.cobj.Name() == "Float") {
+					kindFails[fmt.Sprintf("path [%s] returns kind %s", consumedSummary(st), k.cobj.Name())] = true
+				}
+			}
+		}
+		if ntok == 0 {
+			continue
+		}
+		o := Obligation{Key: key + "|span covers exactly the consumed runes", Pos: c.Pos(fd.Pos()), Nontrivial: true}
+		if len(spanFails) > 0 {
+			o.Status, o.Detail = Violated, strings.Join(sortedKeys(spanFails), "; ")
+		} else {
+			o.Status, o.Detail = Discharged, fmt.Sprintf("%d token-returning paths: Start=loc@0, End=last consumed rune, file set", ntok)
+		}
+		obs = append(obs, o)
+		if isNumber {
+			o := Obligation{Key: key + "|Float iff '.' or 'f' consumed", Pos: c.Pos(fd.Pos()), Nontrivial: true}
+			if len(kindFails) > 0 {
+				o.Status, o.Detail = Violated, strings.Join(sortedKeys(kindFails), "; ")
+			} else {
+				o.Status, o.Detail = Discharged, fmt.Sprintf("%d paths agree", ntok)
+			}
+			obs = append(obs, o)
+		}
+	}
+	return obs
+}
+
+func sortedKeys(m map[string]bool) []string {
+	var out []string
+	for k := range m {
+		out = append(out, k)
+	}
+	sort.Strings(out)
+	return out
+}
+
+// consumedSummary renders what is known about each consumed position.
+func consumedSummary(st *lexState) string {
+	var b []string
+	for i := 0; i < st.off && i < 8; i++ {
+		_, _, eq, has := st.known(i)
+		if has {
+			b = append(b, fmt.Sprintf("%q", eq))
+			continue
+		}
+		desc := "?"
+		for _, f := range st.facts {
+			if f.off == i && f.kind == fIn {
+				desc = f.name
+			}
+		}
+		b = append(b, desc)
+	}
+	return strings.Join(b, " ")
+}
+
+// walkLexFuncN is walkLexFunc with a chosen loop unrolling.
+func walkLexFuncN(r *lexRoles, fd *ast.FuncDecl, init *lexState, bind map[types.Object]lv, unroll int) ([]lexPathResult, bool, []token.Pos) {
+	lexUnrollOverride = unroll
+	defer func() { lexUnrollOverride = 0 }()
+	res, ov, un, _ := walkLexFunc(r, fd, init, bind)
+	return res, ov, un
+}
+
+var lexUnrollOverride int
+
+func ruleLexEscapes(c *Ctx) []Obligation {
+	r := discoverLexRoles(c)
+	info := r.info
+	// grammar: escape_seq = '\' , ( ESCAPE_CHAR | 3 * OCTAL | 'x' , 2 * HEX | 'u' , 4 * HEX | 'U' , 8 * HEX ) ;
+	gram := readGrammar(c)
+	want := map[string][2]int{} // intro → (radix, digits incl. intro digit for octal)
+	if m := regexpFind(gram, `(?s)escape_seq\s*=(.*?);`); m != "" {
+		for _, alt := range strings.Split(m, "|") {
+			alt = strings.TrimSpace(alt)
+			if mm := regexpGroups(alt, `^(?:'(\w)'\s*,\s*)?(\d+)\s*\*\s*(OCTAL|HEX)`); mm != nil {
+				radix := 16
+				if mm[3] == "OCTAL" {
+					radix = 8
+				}
+				n := 0
+				fmt.Sscan(mm[2], &n)
+				want[mm[1]] = [2]int{radix, n}
+			}
+		}
+	}
+	var obs []Obligation
+	if len(want) < 4 {
+		return []Obligation{{Key: "grammar.ebnf escape_seq", Status: Undecided, Detail: fmt.Sprintf("could not read the numeric escape forms from grammar.ebnf (got %v)", want)}}
+	}
+	fd := c.MustFunc("homescript/lexer", "Lexer", "makeEscapeSequence")
+	// find the switch over the rune after the backslash; each numeric case calls a helper(prefix, start, radix, digits)
+	got := map[string][3]int{} // intro → radix, digits, prefixLen
+	ast.Inspect(fd.Body, func(n ast.Node) bool {
+		cc, ok := n.(*ast.CaseClause)
+		if !ok {
+			return true
+		}
+		intro := ""
+		if cc.List == nil {
+			intro = "" // default → octal
+		} else if len(cc.List) == 1 {
+			if tv := info.Types[cc.List[0]]; tv.Value != nil {
+				v, _ := constant.Int64Val(constant.ToInt(tv.Value))
+				intro = string(rune(v))
+			}
+		}
+		ast.Inspect(cc, func(m ast.Node) bool {
+			call, ok := m.(*ast.CallExpr)
+			if !ok || len(call.Args) != 4 {
+				return true
+			}
+			fn := CalleeOf(info, call)
+			if fn == nil {
+				return true
+			}
+			rv, dv := info.Types[call.Args[2]].Value, info.Types[call.Args[3]].Value
+			if rv == nil || dv == nil {
+				return true
+			}
+			radix, _ := constant.Int64Val(constant.ToInt(rv))
+			digits, _ := constant.Int64Val(constant.ToInt(dv))
+			pre := 0
+			if tv := info.Types[call.Args[0]]; tv.Value == nil {
+				pre = 1 // string(*cur): the first digit is passed in
+			}
+			got[intro] = [3]int{int(radix), int(digits), pre}
+			return true
+		})
+		return true
+	})
+	var intros []string
+	for k := range want {
+		intros = append(intros, k)
+	}
+	sort.Strings(intros)
+	for _, intro := range intros {
+		w := want[intro]
+		name := "\\" + intro
+		if intro == "" {
+			name = "octal"
+		}
+		o := Obligation{Key: "escape form " + name, Pos: c.Pos(fd.Pos()), Nontrivial: true}
+		g, ok := got[intro]
+		switch {
+		case !ok:
+			o.Status, o.Detail = Violated, "no decoding branch found for this escape form"
+		case g[0] != w[0] || g[1]+g[2] != w[1]:
+			o.Status, o.Detail = Violated, fmt.Sprintf("decodes %d digit(s) in radix %d, grammar.ebnf prescribes %d digit(s) in radix %d", g[1]+g[2], g[0], w[1], w[0])
+		default:
+			o.Status, o.Detail = Discharged, fmt.Sprintf("%d digit(s), radix %d", w[1], w[0])
+		}
+		obs = append(obs, o)
+	}
+	// the helper's digit class matches the radix: `if radix == 16 { f = IsHexDigit } else { f = IsOctalDigit }`
+	hp := FuncDecl(r.pkg, "Lexer", "escapePart")
+	if hp != nil {
+		o := Obligation{Key: "escape digit class follows the radix", Pos: c.Pos(hp.Pos()), Nontrivial: true}
+		okHex, okOct := false, false
+		ast.Inspect(hp.Body, func(n ast.Node) bool {
+			ifs, ok := n.(*ast.IfStmt)
+			if !ok {
+				return true
+			}
+			b, ok := ast.Unparen(ifs.Cond).(*ast.BinaryExpr)
+			if !ok || b.Op != token.EQL {
+				return true
+			}
+			tv := info.Types[b.Y]
+			if tv.Value == nil {
+				return true
+			}
+			v, _ := constant.Int64Val(constant.ToInt(tv.Value))
+			assigned := func(bs ast.Stmt) *types.Func {
+				var fn *types.Func
+				ast.Inspect(bs, func(m ast.Node) bool {
+					if as, ok := m.(*ast.AssignStmt); ok && len(as.Rhs) == 1 {
+						switch x := ast.Unparen(as.Rhs[0]).(type) {
+						case *ast.SelectorExpr:
+							fn, _ = info.Uses[x.Sel].(*types.Func)
+						case *ast.Ident:
+							fn, _ = info.Uses[x].(*types.Func)
+						}
+					}
+					return true
+				})
+				return fn
+			}
+			thenFn := assigned(ifs.Body)
+			var elseFn *types.Func
+			if ifs.Else != nil {
+				elseFn = assigned(ifs.Else)
+			}
+			hex := runeSet{[][2]rune{{'0', '9'}, {'A', 'F'}, {'a', 'f'}}}
+			oct := runeSet{[][2]rune{{'0', '7'}}}
+			if v == 16 && thenFn != nil && elseFn != nil {
+				if s, ok := r.preds[thenFn]; ok && s.equal(hex) {
+					okHex = true
+				}
+				if s, ok := r.preds[elseFn]; ok && s.equal(oct) {
+					okOct = true
+				}
+			}
+			if v == 8 && thenFn != nil && elseFn != nil {
+				if s, ok := r.preds[thenFn]; ok && s.equal(oct) {
+					okOct = true
+				}
+				if s, ok := r.preds[elseFn]; ok && s.equal(hex) {
+					okHex = true
+				}
+			}
+			return true
+		})
+		if okHex && okOct {
+			o.Status, o.Detail = Discharged, "radix 16 tests the hex class, radix 8 the octal class"
+		} else {
+			o.Status, o.Detail = Undecided, "could not establish which digit class is tested for which radix"
+		}
+		obs = append(obs, o)
+	}
+	return obs
+}
+
+func init() {
+	register(&Rule{ID: "R-lex-classes", Floor: 2, Run: ruleLexClasses,
+		Doc: "for the token families grammar.ebnf defines with repetition groups (ident = LETTER {LETTER|DIGIT}; number = DIGIT {DIGIT|'_'} [ 'f' | '.' DIGIT {DIGIT|'_'} ]) the continuation classes of the scanning loops of the corresponding constructor are exactly the grammar's repetition classes, in order — a rune the grammar allows inside the token must not end it"})
+}
+
+func ruleLexClasses(c *Ctx) []Obligation {
+	r := discoverLexRoles(c)
+	gram, err := parseEBNF(readGrammar(c))
+	if err != nil {
+		return []Obligation{{Key: "grammar.ebnf", Status: Undecided, Detail: err.Error()}}
+	}
+	_, _, _, def := nextTokenCases(c, r)
+	info := r.info
+	// constructor entered on a rune class in the default clause of NextToken
+	ctorOf := map[string]*ast.FuncDecl{} // grammar class name → constructor
+	if def != nil {
+		for _, s := range def.Body {
+			ifs, ok := s.(*ast.IfStmt)
+			if !ok {
+				continue
+			}
+			call, ok := ast.Unparen(ifs.Cond).(*ast.CallExpr)
+			if !ok || len(ifs.Body.List) == 0 {
+				continue
+			}
+			rs, ok := r.preds[CalleeOf(info, call)]
+			if !ok {
+				continue
+			}
+			ret, ok := ifs.Body.List[len(ifs.Body.List)-1].(*ast.ReturnStmt)
+			if !ok || len(ret.Results) == 0 {
+				continue
+			}
+			rc, ok := ast.Unparen(ret.Results[0]).(*ast.CallExpr)
+			if !ok {
+				continue
+			}
+			fn := CalleeOf(info, rc)
+			if fn == nil {
+				continue
+			}
+			for _, cls := range []string{"DIGIT", "LETTER"} {
+				if p, ok := gram.prods[cls]; ok {
+					if set, ok := gram.class(p, 0); ok && set.equal(rs) {
+						ctorOf[cls] = FuncDecl(r.pkg, "Lexer", fn.Name())
+					}
+				}
+			}
+		}
+	}
+	var obs []Obligation
+	for _, pair := range [][2]string{{"number", "DIGIT"}, {"ident", "LETTER"}} {
+		prod, first := pair[0], pair[1]
+		fd := ctorOf[first]
+		o := Obligation{Key: "grammar production " + prod + " vs its constructor", Nontrivial: true}
+		want, ok := gram.repClasses(prod)
+		if fd == nil || !ok || len(want) == 0 {
+			o.Status, o.Detail = Undecided, "could not pair the production with a constructor entered on "+first
+			obs = append(obs, o)
+			continue
+		}
+		o.Pos = c.Pos(fd.Pos())
+		o.Key = "grammar production " + prod + " vs lexer." + fd.Name.Name
+		// loop continuation classes: conditions of the for loops that advance, as a set over ch[0]
+		var got []runeSet
+		undec := ""
+		ast.Inspect(fd.Body, func(n ast.Node) bool {
+			fs, ok := n.(*ast.ForStmt)
+			if !ok || fs.Cond == nil {
+				return true
+			}
+			set, ok := condClass(r, fd, fs.Cond)
+			if !ok {
+				undec = "loop condition `" + exprStr(fs.Cond) + "` is not a rune-class test"
+				return true
+			}
+			got = append(got, set)
+			return true
+		})
+		var gs, ws []string
+		for _, s := range got {
+			gs = append(gs, s.norm().String())
+		}
+		for _, s := range want {
+			ws = append(ws, s.norm().String())
+		}
+		switch {
+		case undec != "":
+			o.Status, o.Detail = Undecided, undec
+		case strings.Join(gs, " ; ") == strings.Join(ws, " ; "):
+			o.Status, o.Detail = Discharged, "loop classes "+strings.Join(gs, " ; ")
+		default:
+			o.Status, o.Detail = Violated, fmt.Sprintf("scanning loops continue on %s, grammar.ebnf repeats %s: a rune the grammar allows inside the token ends it (or vice versa)", strings.Join(gs, " ; "), strings.Join(ws, " ; "))
+		}
+		obs = append(obs, o)
+	}
+	return obs
+}
+
+// condClass: the set of runes for which a loop condition of the form
+// `cur != nil && (pred(*cur) || *cur == 'c' ...)` is true.
+func condClass(r *lexRoles, fd *ast.FuncDecl, cond ast.Expr) (runeSet, bool) {
+	ev := &lexEval{r: r}
+	if fd.Recv != nil && len(fd.Recv.List[0].Names) > 0 {
+		ev.recv, _ = r.info.Defs[fd.Recv.List[0].Names[0]].(*types.Var)
+	}
+	st := &lexState{env: map[types.Object]lv{}}
+	var eval func(e ast.Expr) (runeSet, bool, bool) // set, isNilTest, ok
+	eval = func(e ast.Expr) (runeSet, bool, bool) {
+		e = ast.Unparen(e)
+		if b, ok := e.(*ast.BinaryExpr); ok {
+			switch b.Op {
+			case token.LAND:
+				ls, ln, ok1 := eval(b.X)
+				rs, rn, ok2 := eval(b.Y)
+				if !ok1 || !ok2 {
+					return runeSet{}, false, false
+				}
+				if ln {
+					return rs, rn, true
+				}
+				if rn {
+					return ls, false, true
+				}
+				return runeSet{}, false, false // intersection not needed in this code base
+			case token.LOR:
+				ls, ln, ok1 := eval(b.X)
+				rs, rn, ok2 := eval(b.Y)
+				if !ok1 || !ok2 || ln || rn {
+					return runeSet{}, false, false
+				}
+				return runeSet{append(append([][2]rune{}, ls.ranges...), rs.ranges...)}.norm(), false, true
+			}
+		}
+		f, ok := ev.condFact(st, e, true)
+		if !ok || f.off != 0 {
+			return runeSet{}, false, false
+		}
+		switch f.kind {
+		case fNonNil:
+			return runeSet{}, true, true
+		case fEq:
+			return runeSet{[][2]rune{{f.r, f.r}}}, false, true
+		case fIn:
+			return *f.set, false, true
+		}
+		return runeSet{}, false, false
+	}
+	s, isNil, ok := eval(cond)
+	if !ok || isNil {
+		return runeSet{}, false
+	}
+	return s.norm(), true
 }
